@@ -105,7 +105,8 @@ LegView(atoms) ==
 \*   jk   : how the original-command text reads as JSON: object / null / array / number / string / bool / invalid
 \*   dec  : (jk = object) it decodes as an attribute object (no field of a wrong JSON type)
 \*   jver, juser, jhost : the declared client version / user / host of that object
-\*   conn.ipc : v4 / v6 / notip / unknown   (class of the first field, known to the driver by construction)
+\*   conn.ipc : v4 / v6 / notip / unknown   (class of the first field, where known to the driver by construction)
+\*   conn.strict : the first field is a textual IPv4 / IPv6 address WITHOUT zone, by an independent validator
 \*   argv.toks : every argument split on single spaces; clean = no empty token
 R14(ok, pan, ln, ip, pol, hd, ma, mi, u, h, tidc) ==
   [ok |-> ok, pan |-> pan, logname |-> ln, ip |-> ip, pol |-> pol, handler |-> hd, vmaj |-> ma, vmin |-> mi,
@@ -138,7 +139,7 @@ C14_Call(e) == LET r == e.res IN
   /\ ~r.pan                                              \* never crashes
   /\ r.ok =>
        /\ r.logname = e.log /\ e.log # ""               \* the non-empty server-provided login name
-       /\ r.ip = e.conn.first /\ e.conn.ipc \in {"v4", "v6", "unknown"}
+       /\ r.ip = e.conn.first /\ e.conn.strict /\ e.conn.ipc # "notip"   \* exactly the first field, and that is a valid IP
        /\ r.pol \in {H_NONS, H_NSOK} /\ PolicyFromCommand(e.argv, r)
        /\ TidOK(r.tidc)
        /\ (JsonMatch(e.cmd, r) \/ LegMatch(e.cmd, r))
@@ -158,7 +159,7 @@ Attrs14(c) ==
 Design14(e) ==
   LET a == Attrs14(e.cmd)
       n == Len(e.argv.toks)
-  IN IF /\ a.ok /\ e.log # "" /\ e.conn.ipc \in {"v4", "v6"} /\ n >= 3 /\ n <= 6
+  IN IF /\ a.ok /\ e.log # "" /\ e.conn.strict /\ n >= 3 /\ n <= 6
         /\ e.argv.toks[n - 1] \in {H_NONS, H_NSOK} /\ a.ver.cls \in {"ab", "missing"}
      THEN R14(TRUE, FALSE, e.log, e.conn.first, e.argv.toks[n - 1], e.argv.toks[n],
               IF a.ver.cls = "ab" THEN a.ver.maj ELSE 0, IF a.ver.cls = "ab" THEN a.ver.min ELSE 0,
@@ -168,7 +169,9 @@ Same14(r, d) == /\ r.ok = d.ok /\ ~r.pan
                 /\ r.ok => [r EXCEPT !.tidc = <<>>] = [d EXCEPT !.tidc = <<>>]
 Xok(e, ok) == e.xok \in {"na", IF ok THEN "t" ELSE "f"}
 C14_Strict(e) == IF e.op = "reqparam"
-                 THEN e.conn.ipc # "unknown" => (Same14(e.res, Design14(e)) /\ Xok(e, e.res.ok))
+                 THEN /\ Same14(e.res, Design14(e)) /\ Xok(e, e.res.ok)
+                      /\ e.conn.ipc \in {"v4", "v6"} => e.conn.strict      \* the driver's classes agree with the validator
+                      /\ e.conn.ipc = "notip" => ~e.conn.strict
                  ELSE TRUE
 
 ---------------------------------------------------------------------------
@@ -303,10 +306,14 @@ VersOf(cmd) == IF cmd \in {"json_ok", "leg_ver"} THEN {"ab", "malformed", "big"}
                ELSE IF cmd = "leg_noreq" THEN {"ab", "missing"} ELSE {"ab"}
 HasIdent(cmd) == cmd \in JsonCmds \cup LegCmds \cup {"json_strleg"}
 Conns == {"v4", "v6", "notip", "empty", "v4v4", "nov4"}
-Cases14 == {c \in [cmd : Cmds, ver : {"ab", "missing", "malformed", "big"}, log : {"empty", "set"}, conn : Conns,
+\* first fields that are an IP address followed / surrounded by something else (zone, junk, brackets, port): not valid;
+\* an IPv4-mapped IPv6 address is valid
+ZoneConns == {"v6zone", "v6zonejunk", "v4zone", "ipjunk", "bracket", "withport", "mapped"}
+Cases14 == {c \in [cmd : Cmds, ver : {"ab", "missing", "malformed", "big"}, log : {"empty", "set"}, conn : Conns \cup ZoneConns,
                    ntok : 0..9, pol : {"NONS", "NSOK", "other"}, hnd : {"plain", "NSOK"},
                    user : {"alice", "root"}, host : {"host1", "host2"}] :
               /\ c.ver \in VersOf(c.cmd)
+              /\ c.conn \in ZoneConns => (c.ntok \in {3, 5} /\ c.hnd = "plain" /\ c.pol # "NONS")
               /\ c.ntok < 2 => c.pol = "other"
               /\ c.ntok < 1 => c.hnd = "plain"
               /\ c.hnd = "NSOK" => c.pol # "NSOK"
@@ -335,10 +342,18 @@ Cmd14(c) ==
        [] c.cmd = "leg_req2at"   -> J("invalid", FALSE, NoV, "", "", pre \o vv \o <<Sp>> \o ReqAtoms(c) \o <<At, Txt("78")>>)
        [] c.cmd = "empty"        -> J("invalid", FALSE, NoV, "", "", <<>>)
        [] OTHER                  -> J("invalid", FALSE, NoV, "", "", <<Txt("ff7b00")>>)
-Conn14(c) == CASE c.conn \in {"v4", "v4v4"} -> [first |-> "3139322e302e322e37", ipc |-> "v4"]
-               [] c.conn = "v6"    -> [first |-> "323030313a6462383a3a37", ipc |-> "v6"]
-               [] c.conn = "empty" -> [first |-> "", ipc |-> "notip"]
-               [] OTHER            -> [first |-> "676174657761792e6578616d706c65", ipc |-> "notip"]
+Conn14(c) == LET C(f, ipc) == [first |-> f, ipc |-> ipc, strict |-> ipc \in {"v4", "v6"}] IN
+             CASE c.conn \in {"v4", "v4v4"} -> C("3139322e302e322e37", "v4")
+               [] c.conn = "v6"         -> C("323030313a6462383a3a37", "v6")
+               [] c.conn = "mapped"     -> C("3a3a666666663a312e322e332e34", "v6")                 \* ::ffff:1.2.3.4
+               [] c.conn = "empty"      -> C("", "notip")
+               [] c.conn = "v6zone"     -> C("666538303a3a312565746830", "notip")                   \* fe80::1%eth0
+               [] c.conn = "v6zonejunk" -> C("666538303a3a31252c5072696e636970616c733d726f6f74", "notip")  \* fe80::1%,Principals=root
+               [] c.conn = "v4zone"     -> C("312e322e332e342578", "notip")                         \* 1.2.3.4%x
+               [] c.conn = "ipjunk"     -> C("312e322e332e3478", "notip")                           \* 1.2.3.4x
+               [] c.conn = "bracket"    -> C("5b3a3a315d", "notip")                                 \* [::1]
+               [] c.conn = "withport"   -> C("312e322e332e343a3232", "notip")                       \* 1.2.3.4:22
+               [] OTHER                 -> C("676174657761792e6578616d706c65", "notip")
 PolHex(p) == IF p = "NONS" THEN H_NONS ELSE IF p = "NSOK" THEN H_NSOK ELSE "58585858"
 Fill == <<"67656e7369676e", "2d63", "2f7573722f62696e2f67656e7369676e", "2d2d666c6167", "61", "62", "63", "64", "65">>
 Argv14(c) == [toks |-> [i \in 1..c.ntok |-> IF i = c.ntok THEN (IF c.hnd = "NSOK" THEN H_NSOK ELSE "68616e646c6572")
